@@ -94,6 +94,30 @@ class Check:
             self.refusals.append(f"{getattr(rule_fn, '__name__', rule_fn)}: {e}")
             return self.REFUSED
 
+    def borrow(self, as_rule: str, rule_fn, *args, only=None, **kw):
+        """Evaluate a rule that belongs to another property under this property's name: the clause it decides is a necessary
+        condition of both.  The rule runs on a scratch Check, every obligation it produces is relabelled `as_rule` (the
+        construct keys stay, so a finding names the same construct under either property), a refusal is this check's refusal.
+        `only(obligation) -> bool` keeps a subset.  `chk` in `args` stands for the scratch Check."""
+        sub = Check(self.prop, self.prog, self.tier)
+        args = tuple(sub if a is self else a for a in args)
+        before = len(self.refusals)
+        res = sub.call(rule_fn, *args, **kw)
+        for r in sub.refusals:
+            self.refusals.append(f"{as_rule} (borrowed) {r}")
+        for o in sub.obligations:
+            if only is not None and not only(o):
+                continue
+            o = dict(o)
+            o["detail"] = f"[{o['rule']}] " + o["detail"]
+            o["rule"] = as_rule
+            self.obligations.append(o)
+        self.functions |= sub.functions
+        for n in sub.notes:
+            if n not in self.notes:
+                self.notes.append(n)
+        return self.REFUSED if (res is sub.REFUSED or len(self.refusals) > before) else res
+
     def floor(self, rule: str, n: int):
         have = sum(1 for o in self.obligations if o["rule"] == rule)
         if have < n:
